@@ -567,8 +567,6 @@ impl Graph {
                     .is_some()
             })
             .collect::<Vec<_>>();
-        // Don't remove the graph root (only happens when there are no leaves)
-        visit_stack.push(graph.root);
         let mut reach_accept = visit_stack.iter().cloned().collect::<HashSet<_>>();
         while let Some(state) = visit_stack.pop() {
             // Traverse the graph backwards to include any parents of visited nodes in the set of
@@ -578,6 +576,13 @@ impl Graph {
                     visit_stack.push(*parent);
                 }
             }
+        }
+        // Don't remove the graph root (only happens when no leaf can ever match). It is a dead
+        // end like the others, so it keeps no edges, not even to itself.
+        if reach_accept.insert(graph.root) {
+            let root_data = &mut graph.states[graph.root.0];
+            root_data.normal.clear();
+            root_data.eoi = None;
         }
 
         // Now that we have a set of non-dead states, we can remove edges going to dead states.
